@@ -926,6 +926,9 @@ pub fn run(opts: &Opts) -> Report {
     if want("storm") {
         crate::props::storm::query_storm(&mut rep, opts);
     }
+    if want("taskset") {
+        crate::props::c14ts::run(&mut rep, opts);
+    }
     if want("clones") {
         let n = if cfg!(miri) { 2 } else { opts.n(600, 20000) };
         for case in 0..n {
